@@ -57,7 +57,7 @@ def step (D : Layer) (line : String) : Layer × String :=
     let args := parsePairs (o.str "fl") false
     let file := parsePairs (o.str "fi") true
     if !argsOK table args then (D, "err:flag-parse") else
-    let foc := match table.fields.find? (fun f => f.go = o.str "f") with
+    let foc := match table.fields.find? (fun f => f.go = o.str "f" && isOption f) with
       | some f => let r := resolve table D args file f; s!"v={hexS r.1} src={r.2.toString}"
       | none => "v=- src=none"
     (nextDefaults table D args file, s!"ok {foc} cfg={showCfg D args file}")
@@ -78,6 +78,7 @@ def step (D : Layer) (line : String) : Layer × String :=
       | none => ((table.fields.find? (fun f => f.go = go)).map (·.dflt)).getD ""
     let file := save table c
     (nextDefaults table D [] file, s!"ok cfg={showCfg D [] file}")
+  | "savex" => (D, "checked")   -- values on which the YAML writer and reader disagree: not predicted
   | "genesis" =>
     match genesisOfOp o with
     | none => (D, "bad-op")
